@@ -205,7 +205,10 @@ _OBS = None
 
 
 def _work(i):
-    o = _OBS[i]
+    return work_obj(_OBS[i], i)
+
+
+def work_obj(o, i=0):
     t0 = time.time()
     try:
         if o.kind in ("cover", "finding"):
@@ -230,7 +233,11 @@ def _work(i):
         r = decide(job)
         if r["verdict"] == "sat" and stats.get("quantified") and not o.expect_sat:
             # a model of the instantiated query is only a candidate: refine with more instantiation rounds
-            smt2b, statsb = to_smt2(o.pc, o.goal, o.expect_sat, watch=o.watch, rounds=5)   # (also restores dropped hypotheses of qf_only clauses)
+            os.environ["PYVC_RELEVANCE"] = "0"      # the refinement uses every instance
+            try:
+                smt2b, statsb = to_smt2(o.pc, o.goal, o.expect_sat, watch=o.watch, rounds=5)   # (also restores dropped hypotheses of qf_only clauses)
+            finally:
+                os.environ["PYVC_RELEVANCE"] = "1"
             rb = decide(dict(job, smt2=smt2b))
             rb["time_s"] += r["time_s"]
             if rb["verdict"] == "unsat":
